@@ -9,7 +9,6 @@ import (
 	"errors"
 	"fmt"
 	"io"
-	"os"
 	"runtime/debug"
 	"testing"
 
@@ -119,9 +118,6 @@ var maxAllocSeen uint64
 var maxAllocWhat string
 
 func noteAlloc(rec *ev.Rec, o outcome, what string, data []byte) {
-	if os.Getenv("VERIF_C08_DEBUG_ALLOC") != "" && o.alloc > 1<<20 {
-		fmt.Printf("BIGALLOC %d MB %s %.60s\n", o.alloc>>20, what, hexShort(data))
-	}
 	if o.alloc > maxAllocSeen {
 		maxAllocSeen = o.alloc
 		maxAllocWhat = fmt.Sprintf("%s, %d byte input %.80s", what, len(data), hexShort(data))
@@ -558,11 +554,11 @@ func mutate(t *rapid.T, b []byte) []byte {
 
 // hostilePayload derives one hostile byte string from a valid encoding.
 type hostilePayload struct {
-	class   string
-	data    []byte
-	mustErr string // non-empty: why a decoder has to refuse it
-	past    bool   // the input has content after its first count/length field
-	expensive bool // a claim the unchanged decoder honours with a multi-MB allocation
+	class     string
+	data      []byte
+	mustErr   string // non-empty: why a decoder has to refuse it
+	past      bool   // the input has content after its first count/length field
+	expensive bool   // a claim the unchanged decoder honours with a multi-MB allocation
 }
 
 func deriveHostile(t *rapid.T, e *wirefmt.Enc, defined bool) hostilePayload {
